@@ -65,9 +65,9 @@ SPEC = {
                "TestScenarioGun/xpath_expr_nodeset_numeric": 0.12, "TestScenarioGun/xpath_expr_scalar": 0.012,
                "TestScenarioGun/xpath_expr_plain": 0.027, "TestScenarioGun/xpath_nodeset_numeric_on_non_numeric_page": 0.03,
                "TestScenarioGun/xpath_nodeset_numeric_on_numeric_page": 0.012,
-               "TestScenarioGun/lying_length_postprocessed": 0.05, "TestScenarioGun/lying_length_unallocatable_postprocessed": 0.03,
+               "TestScenarioGun/lying_length_postprocessed": 0.04, "TestScenarioGun/lying_length_unallocatable_postprocessed": 0.025,
                "TestScenarioGun/head_step": 0.2, "TestScenarioGun/head_announces_huge_postprocessed": 0.02,
-               "TestHTTP2ScenarioGun/lying_length_postprocessed": 0.04, "TestHTTP2ScenarioGun/lying_length_unallocatable_postprocessed": 0.03,
+               "TestHTTP2ScenarioGun/lying_length_postprocessed": 0.04, "TestHTTP2ScenarioGun/lying_length_unallocatable_postprocessed": 0.025,
                "TestHTTP2ScenarioGun/head_announces_huge_postprocessed": 0.015,
                "TestHTTPGun/mis_announce": 0.015, "TestHTTP2Gun/h2_mis_announce": 0.015,
                "TestConnectProxy/connect_refused_length": 0.25, "TestConnectProxy/connect_refused_chunked": 0.15,
